@@ -214,16 +214,19 @@ def sat_src(design, impl_design, seqs_text, strands_text):
         for reg in regs[1:]:
             for (va, ca), (vb, cb) in zip(regs[0], reg):
                 uf.union(va, vb, (1 if ca else 0) ^ (1 if cb else 0))
+    # a sequence that is never placed in a strand is not designed and keeps its template letter (the compiler warns about
+    # it): such a letter agrees with a designed base when it allows it, so classes are compared as sets of bases
     seen = {}
     for v in list(uf.p):
-        if v not in val:
+        if v not in val or val[v] not in GROUP:
             continue
         r, par = uf.find(v)
-        base = COMPX[val[v]] if par else val[v]
-        if r in seen and seen[r][1] != base:
+        letter = COMPX[val[v]] if par else val[v]
+        allowed = frozenset(GROUP[letter])
+        if r in seen and not (seen[r][1] & allowed):
             problems.append("ports bound to one signal disagree: %s:%d and %s:%d" % (seen[r][0][0], seen[r][0][1], v[0], v[1]))
             break
-        seen.setdefault(r, (v, base))
+        seen[r] = (seen[r][0], seen[r][1] & allowed) if r in seen else (v, allowed)
     # the strands-to-order file lists exactly the non-dummy strands
     listed = []
     for line in strands_text.split("\n"):
